@@ -65,6 +65,34 @@ def run(tier, seed, escalate=False):
                 except Exception as e:  # noqa: BLE001
                     key = "C06:shipped-sample-does-not-import:%s" % rel
                     fails.append({"key": key, "clause": key, "ops": [{"path": rel, "error": type(e).__name__}]})
+        # Kea / Prospa CSV files (text; no byte-level encoder in the model): written here with repr() so that every double
+        # is recovered exactly; columns x, re_1, im_1, re_2, im_2, …  The pinned convention of the CSV reader is re + i*im.
+        for n_pts, n_tr in ((4, 1), (7, 1), (5, 2), (9, 3), (2, 2)):
+            dcsv = tempfile.mkdtemp(dir=work)
+            xs = np.arange(n_pts) * 2.0e-6
+            re = rng.random() + np.arange(n_pts * n_tr, dtype=float).reshape(n_pts, n_tr) * 1.25 - 3.0
+            im = -0.5 * re + 7.0
+            with open(os.path.join(dcsv, "data.csv"), "w") as f:
+                for i in range(n_pts):
+                    row = [repr(float(xs[i]))]
+                    for j in range(n_tr):
+                        row += [repr(float(re[i, j])), repr(float(im[i, j]))]
+                    f.write(",".join(row) + "\n")
+            with open(os.path.join(dcsv, "acqu.par"), "w") as f:
+                f.write('experiment = "verif"\nnrPnts = %d\ndwellTime = 2\nb1Freq = 14.5d\n' % n_pts)
+            n_ship += 1
+            with warnings.catch_warnings(), contextlib.redirect_stdout(io.StringIO()):
+                warnings.simplefilter("ignore")
+                try:
+                    dc = dnp.load(os.path.join(dcsv, "data.csv"), data_format="prospa")
+                    want = np.squeeze(re + 1j * im)
+                    okc = consistent(dc) and np.asarray(dc.values).shape == want.shape and np.array_equal(np.asarray(dc.values), want) \
+                        and np.allclose(np.asarray(dc.coords[dc.dims[0]], dtype=float), xs, rtol=1e-12, atol=0)
+                except Exception:  # noqa: BLE001
+                    okc = False
+            if not okc:
+                key = "C06:prospa-csv:values"
+                fails.append({"key": key, "clause": key, "ops": [{"points": n_pts, "traces": n_tr}]})
         # one measurement in two encodings: Prospa binary and CSV
         pd = os.path.join(REPO, "data", "prospa", "toluene_10mM_Tempone", "1")
         if os.path.exists(os.path.join(pd, "data.csv")) and os.path.exists(os.path.join(pd, "data.1d")):
@@ -89,8 +117,7 @@ def run(tier, seed, escalate=False):
             "traces_validated": len(cases) - len(mism), "mismatches": mism, "impl_failures": uniq,
             "distribution": dict(dist, shipped=n_ship),
             "unproved_clauses": ["text-header parsers (JCAMP-DX, procpar, DSC, .par, .exp, XML) are covered differentially only",
-                                 "Delta, BES3T, WinEPR, SpecMan, RS2D and CSV have no synthetic encoder in this version: their layouts are "
-                                 "instances of the same Layout theorem but are tied to the code through the shipped samples only"],
+                                 "CSV is text: synthetic CSV files are written by the harness and compared directly (no byte-level encoder in the model)"],
             "trusted_extra": ["struct / numpy.fromfile byte decoding and IEEE-754 interpretation are L0"]}
 
 
